@@ -26,6 +26,7 @@ import D3.Proofs.TetraMeshCylinderTop
 import D3.Proofs.TetraMeshCapsule
 import D3.Proofs.TetraMeshCapsuleSurface
 import D3.Proofs.TetraMeshIcosphere
+import D3.Proofs.TetraMeshIcoGlue
 
 namespace D3
 namespace C17
@@ -505,6 +506,120 @@ theorem sphere_defined_of_count_and_nonzero_rows (r : ℝ) (hr : 0 < r) (order :
 
 /-- the count hypothesis holds at order 2 (kernel evaluation) -/
 example : (icoTopology 2).2.v = icoVertexCount 2 := icosphere_vertex_counts.2.2.2.1
+
+/-- **C17, `add_mid_point` and the cache (any state satisfying the invariants).** If every cache
+entry `(key, idx)` carries the key of the parent pair recorded for vertex `idx` (`CacheOK`) and the
+index bookkeeping invariant `StOK` holds, then after `add_mid_point(a, b)` (cache hit or miss) the
+cache invariant still holds, the parent list has only grown at its end, and the returned vertex has
+parent pair `(a, b)` or `(b, a)`. -/
+theorem add_mid_point_returns_midpoint_of_requested_edge (a b : Nat) (st : IcoState) (h : StOK st)
+    (hc : CacheOK st) :
+    CacheOK (addMidPoint a b st).2 ∧
+      (∃ ext, (addMidPoint a b st).2.parents = st.parents ++ ext) ∧
+      12 ≤ (addMidPoint a b st).1 ∧
+      ((addMidPoint a b st).2.parents[(addMidPoint a b st).1 - 12]? = some (a, b) ∨
+        (addMidPoint a b st).2.parents[(addMidPoint a b st).1 - 12]? = some (b, a)) :=
+  addMidPoint_cacheOK a b st h hc
+
+/-- the invariants hold for the initial state -/
+example : StOK ⟨[], 12, []⟩ ∧ CacheOK ⟨[], 12, []⟩ :=
+  ⟨(icoTopology_ok 0).1, fun _ hkv => by cases hkv⟩
+
+/-- **C17, rows of the midpoint pass are stable and are midpoints.** In a successful midpoint pass
+`icoMidpoints vs ps = ok ws` earlier rows are never changed (`ws` extends `vs` by one row per parent
+pair), and the row created for the `i`-th parent pair `(a, b)` is `0.5·(ws[a] + ws[b])`. -/
+theorem icosphere_midpoint_rows (ps : List (Nat × Nat)) (vs ws : List (V3 ℝ))
+    (h : icoMidpoints vs ps = .ok ws) :
+    (∃ tl, ws = vs ++ tl ∧ tl.length = ps.length) ∧
+    ∀ (i a b : Nat), ps[i]? = some (a, b) →
+      ∃ pa pb, ws[a]? = some pa ∧ ws[b]? = some pb ∧ ws[vs.length + i]? = some (geoMid pa pb) :=
+  ⟨icoMidpoints_prefix ps vs ws h, icoMidpoints_row ps vs ws h⟩
+
+/-- the hypothesis is satisfiable (every order, `icosphere_index_bookkeeping_all_orders`) -/
+example : ∃ ws : List (V3 ℝ), icoMidpoints icoVertices0 (icoTopology 1).2.parents = .ok ws :=
+  (icoMidpoints_defined_all_orders 1).imp fun _ h => h.1
+
+/-- **C17, glue: the index/cache subdivision is the position-triangle subdivision, all orders.**
+For every order the cache invariant holds for the model's state, and the position triangles of the
+index triangles of `icoTopology order`, rows looked up in the result `ws` of the model's midpoint
+pass, are exactly the triangles of `geoIco order` (same order of triangles and corners). -/
+theorem icosphere_index_triangles_are_geoIco_all_orders (order : Nat) (ws : List (V3 ℝ))
+    (hm : icoMidpoints (icoVertices0 : List (V3 ℝ)) (icoTopology order).2.parents = .ok ws) :
+    CacheOK (icoTopology order).2 ∧ (icoTopology order).1.map (posTri ws) = geoIco order :=
+  ⟨(icoTopology_glue order).1.2,
+    (icoTopology_glue order).2 [] ws (by rw [List.append_nil]; exact hm)⟩
+
+/-- **C17, every row of the midpoint pass is non-zero, all orders.** Every vertex index below `v`
+is a corner of a triangle of the final level (`icoTopology_cover`), whose position triangle is in
+`geoIco order` and so has positive pairwise dot products; hence no row is the zero vector. -/
+theorem icosphere_rows_nonzero_all_orders (order : Nat) (ws : List (V3 ℝ))
+    (hm : icoMidpoints (icoVertices0 : List (V3 ℝ)) (icoTopology order).2.parents = .ok ws) :
+    ∀ p ∈ ws, 0 < V3.normSq p := icoRows_nonzero order ws hm
+
+/-- the hypothesis of the two theorems above is satisfiable at every order -/
+example (order : Nat) : ∃ ws : List (V3 ℝ),
+    icoMidpoints icoVertices0 (icoTopology order).2.parents = .ok ws :=
+  (icoMidpoints_defined_all_orders order).imp fun _ h => h.1
+
+/-- **C17, sphere factory defined, conditional only on the vertex count (any order).** If the
+subdivision creates exactly the allocated `10·4^order + 2` vertices, `make_tetrahedral_sphere`
+returns a mesh for every positive radius: no `IndexError`, and the final normalisation divides by no
+zero because every row is non-zero (`icosphere_rows_nonzero_all_orders`). -/
+theorem sphere_defined_of_count (r : ℝ) (hr : 0 < r) (order : Nat)
+    (hc : (icoTopology order).2.v = icoVertexCount order) :
+    ∃ m, makeTetrahedralSphere r order = .ok m :=
+  sphere_defined_of_count_and_nonzero_rows r hr order hc (icoRows_nonzero order)
+
+/-- **C17, vertex count at order 3 (kernel evaluation of this one order, not the all-orders
+claim).** The cache creates exactly `10·4^3 + 2 = 642` vertices and ends empty. -/
+theorem icosphere_vertex_count_order3 :
+    (icoTopology 3).2.v = icoVertexCount 3 ∧ (icoTopology 3).2.cache = [] := icosphere_count_3
+
+/-- **C17, sphere factory defined for orders 0–3**, every positive radius, unconditionally (count by
+kernel evaluation for these four orders, everything else by the all-orders theorems). -/
+theorem sphere_defined_orders_le_3 (r : ℝ) (hr : 0 < r) (order : Nat) (ho : order ≤ 3) :
+    ∃ m, makeTetrahedralSphere r order = .ok m := by
+  have h0 := icosphere_vertex_counts.2.1
+  have h1 := icosphere_vertex_counts.2.2.1
+  have h2 := icosphere_vertex_counts.2.2.2.1
+  have h3 := icosphere_vertex_count_order3.1
+  apply sphere_defined_of_count r hr order
+  rcases (by omega : order = 0 ∨ order = 1 ∨ order = 2 ∨ order = 3) with rfl | rfl | rfl | rfl
+  · exact h0
+  · exact h1
+  · exact h2
+  · exact h3
+
+/-- **C17, ellipsoid factory defined, conditional only on the vertex count (any order).** Same
+hypothesis as `sphere_defined_of_count`; `make_tetrahedral_ellipsoid` builds the unit icosphere and
+scales it, so it returns a mesh for every `radii`. -/
+theorem ellipsoid_defined_of_count (radii : V3 ℝ) (order : Nat)
+    (hc : (icoTopology order).2.v = icoVertexCount order) :
+    ∃ m, makeTetrahedralEllipsoid radii order = .ok m := by
+  obtain ⟨m, hm⟩ := sphere_defined_of_count 1 one_pos order hc
+  unfold makeTetrahedralSphere at hm
+  unfold makeTetrahedralEllipsoid
+  cases h : makeTriangularIcosphere (V3.zero : V3 ℝ) 1 order with
+  | error e => rw [h] at hm; cases hm
+  | ok p => exact ⟨_, rfl⟩
+
+/-- the count hypothesis holds at order 3 (kernel evaluation) -/
+example : (icoTopology 3).2.v = icoVertexCount 3 := icosphere_vertex_count_order3.1
+
+/-- **C17, ellipsoid factory defined for orders 0–3**, every `radii`, unconditionally (count by
+kernel evaluation for these four orders). -/
+theorem ellipsoid_defined_orders_le_3 (radii : V3 ℝ) (order : Nat) (ho : order ≤ 3) :
+    ∃ m, makeTetrahedralEllipsoid radii order = .ok m := by
+  have h0 := icosphere_vertex_counts.2.1
+  have h1 := icosphere_vertex_counts.2.2.1
+  have h2 := icosphere_vertex_counts.2.2.2.1
+  have h3 := icosphere_vertex_count_order3.1
+  apply ellipsoid_defined_of_count radii order
+  rcases (by omega : order = 0 ∨ order = 1 ∨ order = 2 ∨ order = 3) with rfl | rfl | rfl | rfl
+  · exact h0
+  · exact h1
+  · exact h2
+  · exact h3
 
 end C17
 end D3
